@@ -677,6 +677,45 @@ impl<F: Field + PrimeCharacteristicRing + Copy, const D: usize> AluAir<F, D> {
     }
 }
 
+/// Read-only view of an [`AluAir`]'s configuration for the external verification harness
+/// (/verif): lets it rebuild the same AIR over another field type and inspect the schedule.
+#[cfg(p3r_verif)]
+#[derive(Debug, Clone)]
+pub struct VerifAluParams<F: Copy> {
+    pub num_ops: usize,
+    pub lanes: usize,
+    pub ext_mul_kind: AluExtMulKind<F>,
+    pub preprocessed: Vec<F>,
+    pub min_height: usize,
+    pub horner_packed_steps: usize,
+    /// Schedule entries as (kind, first op index, arity): kind 0 = op, 1 = packed Horner,
+    /// 2 = separator. `None` when no HornerAcc op is present.
+    pub schedule: Option<Vec<(u8, usize, usize)>>,
+}
+
+#[cfg(p3r_verif)]
+impl<F: Field + Copy, const D: usize> AluAir<F, D> {
+    pub fn verif_params(&self) -> VerifAluParams<F> {
+        VerifAluParams {
+            num_ops: self.num_ops,
+            lanes: self.lanes,
+            ext_mul_kind: self.ext_mul_kind,
+            preprocessed: self.preprocessed.clone(),
+            min_height: self.min_height,
+            horner_packed_steps: self.horner_packed_steps,
+            schedule: self.schedule.as_ref().map(|s| {
+                s.iter()
+                    .map(|e| match *e {
+                        ScheduleEntry::Op(i) => (0u8, i, 1usize),
+                        ScheduleEntry::PackedHorner(i, k) => (1u8, i, k),
+                        ScheduleEntry::Separator => (2u8, 0, 0),
+                    })
+                    .collect()
+            }),
+        }
+    }
+}
+
 impl<F: Field + Copy, const D: usize> BaseAir<F> for AluAir<F, D> {
     fn width(&self) -> usize {
         self.total_width()
